@@ -32,7 +32,15 @@ TEMPLATES = [
     # T3: no setup: a(x), b(a, y=5), c(b, z=7), d(a)
     {"name": "plain", "n": 4, "deps": [[], [1], [2], [1]], "kind": ["reg", "reg", "reg", "reg"],
      "const": [False, False, False, True], "np": 3, "defaults": [-1, 5, 7], "argof": [1, 2, 3, 0], "compose": [[1], [4]]},
+    # T4: a setup node that returns None (side effect only), a node that returns None, a deactivated node, keyword arguments
+    {"name": "nones", "n": 6, "deps": [[], [1], [2], [3], [3], [3, 4, 5]], "kind": ["setup", "setup", "reg", "reg", "reg", "reg"],
+     "const": [False, False, False, False, False, False], "np": 1, "defaults": [-1], "argof": [0, 0, 1, 0, 0, 0],
+     "compose": [[3], [6]], "nonefn": [1, 4], "off": [5], "kwdeps": {"6": [3, 5]}},
 ]
+for _T in TEMPLATES:
+    _T.setdefault("nonefn", [])
+    _T.setdefault("off", [])
+    _T.setdefault("kwdeps", {})
 
 _COUNTER = itertools.count(1)
 POISONED = False      # an operation hung in this process (a lock may be held for good): nothing more is run here
@@ -86,17 +94,19 @@ def build(D, is_async=False):
 
     n = D["n"]
     xs = {}
+    nonefn = set(D.get("nonefn", []))
     for k in range(1, n + 1):
         def mk(k=k):
             if D["kind"][k - 1] == "setup":
-                def f(*a):
-                    return ("s", k, next(_COUNTER), tuple(a))
+                def f(*a, **kw):
+                    c = next(_COUNTER)
+                    return None if k in nonefn else ("s", k, c, tuple(a) + tuple(kw[x] for x in sorted(kw)))
             else:
                 has_arg = D["argof"][k - 1] != 0
-                def f(*a):
+                def f(*a, **kw):
                     if has_arg and a and a[-1] == FAIL:
                         raise Injected(k)
-                    return ("v", k, tuple(a))
+                    return None if k in nonefn else ("v", k, tuple(a) + tuple(kw[x] for x in sorted(kw)))
             f.__qualname__ = f.__name__ = f"f{k}"
             return f
         is_setup = D["kind"][k - 1] == "setup"
@@ -107,11 +117,15 @@ def build(D, is_async=False):
         params.append(f"p{p}" if d == -1 else f"p{p}={d}")
     lines = []
     for k in range(1, n + 1):
-        parts = [f"v{d}" for d in D["deps"][k - 1]]
+        kwd = D.get("kwdeps", {}).get(str(k), [])
+        parts = [f"v{d}" for d in D["deps"][k - 1] if d not in kwd]
         if D["const"][k - 1]:
             parts.append("3")
         if D["argof"][k - 1]:
             parts.append(f"p{D['argof'][k - 1]}")
+        parts += [f"k{d}=v{d}" for d in kwd]
+        if k in D.get("off", []):
+            parts.append("twz_active=False")
         lines.append(f"    v{k} = X[{k}]({', '.join(parts)})")
     ret = ", ".join(f"v{k}" for k in range(1, n + 1))
     src = f"def describe({', '.join(params)}):\n" + "\n".join(lines) + f"\n    return ({ret},)\n"
@@ -235,7 +249,8 @@ class History:
             res = d.results
             ev["keys"] = mask(k for k in range(1, n + 1) if f"f{k}" in res and D["kind"][k - 1] == "setup")
             ev["xkeys"] = sum(1 for k in range(1, n + 1) if f"f{k}" in res and D["kind"][k - 1] != "setup")
-            ev["nonces"] = [nonce_of(res.get(f"f{k}")) for k in range(1, n + 1)]
+            # a setup node that returns None carries no counter: report a pseudo nonce while its key is present
+            ev["nonces"] = [(10 ** 6 + k if f"f{k}" in res and k in D.get("nonefn", []) else nonce_of(res.get(f"f{k}"))) for k in range(1, n + 1)]
         if ret is not None and isinstance(ret, tuple) and len(ret) == n:
             ev["retn"] = [nonce_of(v) for v in ret]
             for k, v in enumerate(ret, 1):
@@ -402,7 +417,7 @@ class History:
             self.poisoned = True        # a thread of this process is stuck for good
             POISONED = True
         res2 = self.inst[j].results
-        ev["nonces2"] = [nonce_of(res2.get(f"f{k}")) for k in range(1, self.n + 1)]
+        ev["nonces2"] = [(10 ** 6 + k if f"f{k}" in res2 and k in self.D.get("nonefn", []) else nonce_of(res2.get(f"f{k}"))) for k in range(1, self.n + 1)]
 
     def op_copy(self, i, j):
         def go():
